@@ -198,7 +198,9 @@ impl<'a> StylesheetParser<'a> for SassParser<'a> {
             }
 
             let indentation = self.read_indentation()?;
-            assert_eq!(indentation, 0);
+            if indentation != 0 {
+                return Err(("Nothing may be indented here", self.toks.current_span()).into());
+            }
         }
 
         Ok(statements)
@@ -292,7 +294,7 @@ impl<'a> StylesheetParser<'a> for SassParser<'a> {
 
             first = false;
 
-            for _ in 3..(self.current_indentation - parent_indentation) {
+            for _ in 3..self.current_indentation.saturating_sub(parent_indentation) {
                 buffer.add_char(' ');
             }
 
